@@ -7,6 +7,7 @@ CONSTANTS
   MaxMut = 2
   MaxFault = 2
   MaxEnv = 8
+  MaxHold = 1
 INIT Init
 NEXT Next
 INVARIANTS PropertyHolds Converged CacheIsView
